@@ -206,14 +206,86 @@ class Facts:
                 return o.call
         return None
 
-    def _run(self):
+    def _loop_info(self):
         fn = self.fn
+        loops = fn.loops()
+        assigned = {}
+        for h, body in loops.items():
+            a = set()
+            for b in body:
+                for st in fn.blocks[b]["stmts"]:
+                    if st["k"] == "assign":
+                        a.add(st["pl"]["l"])
+                t = fn.blocks[b]["term"]
+                if t["k"] == "call" and t.get("dest") is not None:
+                    a.add(t["dest"]["l"])
+            assigned[h] = a
+        return loops, assigned
+
+    def _liveness(self):
+        """live-in sets of bool locals per block (so that the symbolic value of a dead temporary does not keep worlds apart)"""
+        fn = self.fn
+        bools = set(l for l, d in enumerate(fn.locals) if d["ty"] == "bool")
+        use, deff = {}, {}
+
+        def reads(o, acc):
+            if isinstance(o, dict):
+                if "l" in o and isinstance(o["l"], int) and "p" in o:
+                    if o["l"] in bools:
+                        acc.add(o["l"])
+                for v in o.values():
+                    reads(v, acc)
+            elif isinstance(o, list):
+                for v in o:
+                    reads(v, acc)
+        for b in fn.reach:
+            u, d = set(), set()
+            for st in fn.blocks[b]["stmts"]:
+                if st["k"] != "assign":
+                    continue
+                r = set()
+                reads(st["rv"], r)
+                if st["pl"]["p"]:
+                    reads(st["pl"], r)
+                u |= (r - d)
+                if not st["pl"]["p"] and st["pl"]["l"] in bools:
+                    d.add(st["pl"]["l"])
+            t = fn.blocks[b]["term"]
+            r = set()
+            for k in ("discr", "args", "cond", "ops", "pl"):
+                if k in t:
+                    reads(t[k], r)
+            u |= (r - d)
+            if t["k"] == "call" and t.get("dest") is not None and not t["dest"]["p"] and t["dest"]["l"] in bools:
+                d.add(t["dest"]["l"])
+            use[b], deff[b] = u, d
+        live_in = {b: set(use[b]) for b in fn.reach}
+        changed = True
+        while changed:
+            changed = False
+            for b in fn.reach:
+                out = set()
+                for y in fn.succs(b):
+                    out |= live_in.get(y, set())
+                new = use[b] | (out - deff[b])
+                if new != live_in[b]:
+                    live_in[b] = new
+                    changed = True
+        return live_in
+
+    def _run(self):
+        """worklist over abstract worlds.  At a loop back edge the world is widened to `what held when the loop was entered`
+        (facts established inside the body are re-established by the next pass; flags assigned in the body become unknown), so a
+        loop is analysed as: first iteration + one generic iteration."""
+        fn = self.fn
+        loops, assigned = self._loop_info()
+        live_in = self._liveness()
         seen = set()
-        work = [(0, (), frozenset())]
+        work = [(0, (), frozenset(), ())]
         n = 0
         while work:
-            b, envt, facts = work.pop()
-            st = (b, envt, facts)
+            b, envt, facts, entries = work.pop()
+            st = (b, envt, facts, entries)
             if st in seen:
                 continue
             seen.add(st)
@@ -227,7 +299,22 @@ class Facts:
             env = self._step(b, dict(envt))
             facts = self._refresh(b, facts)
             for (y, env2, facts2) in self._edges(b, env, facts):
-                work.append((y, tuple(sorted(env2.items())), frozenset(facts2)))
+                ent = entries
+                f2 = frozenset(facts2)
+                lv = live_in.get(y, ())
+                e2 = tuple(sorted((l, v) for l, v in env2.items() if l in lv))
+                if y in loops:
+                    if b in loops[y]:
+                        # back edge: widen to the loop-entry state
+                        got = [x for x in entries if x[0] == y]
+                        if got:
+                            f2 = got[0][1]
+                            e2 = tuple((l, v) for (l, v) in got[0][2] if l not in assigned[y])
+                        else:
+                            f2, e2 = frozenset(), ()
+                    else:
+                        ent = tuple(x for x in entries if x[0] != y) + ((y, f2, e2),)
+                work.append((y, e2, f2, ent))
 
     # ---- queries -------------------------------------------------------
     def at(self, bb):
